@@ -783,7 +783,7 @@ func Conclude(cfg *Config, chk Check, agg *Aggregate, t0 time.Time) int {
 		os.MkdirAll(repDir, 0o755)
 		exit = 1
 		for i, v := range unlisted {
-			if i >= 25 {
+			if i >= maxPrint() {
 				fmt.Printf("… %d further distinct unlisted signatures suppressed\n", len(unlisted)-i)
 				break
 			}
@@ -840,6 +840,13 @@ func Conclude(cfg *Config, chk Check, agg *Aggregate, t0 time.Time) int {
 	fmt.Printf("%s tier=%s seed=%d: %s — cases=%d evaluations=%d distinct_nontrivial=%d known=%d unlisted=%d inconclusive=%d crashes=%d wall=%.1fs\n",
 		cfg.ID, cfg.Tier, cfg.Seed, verdict, agg.Cases, agg.Evals, distinct, len(kf), len(unlisted), nInc, agg.Crashes, time.Since(t0).Seconds())
 	return exit
+}
+
+func maxPrint() int {
+	if n, err := strconv.Atoi(os.Getenv("VERIF_MAXPRINT")); err == nil && n > 0 {
+		return n
+	}
+	return 25
 }
 
 func oneLine(s string) string { return strings.Join(strings.Fields(s), " ") }
